@@ -13,7 +13,9 @@ static void gs_check(u8* p, u64 n) { __CPROVER_assert(n == 0 || __CPROVER_r_ok(p
 void _ZNSt7__cxx1112basic_stringIcSt11char_traitsIcESaIcEEC2EPKcmRKS3_(u8* s, u8* p, u64 n, u8* a) { (void)a; gs_check(p, n); GS(s)->p = p; GS(s)->len = n; }
 void _ZNSt7__cxx1112basic_stringIcSt11char_traitsIcESaIcEEC1EPKcmRKS3_(u8* s, u8* p, u64 n, u8* a) { (void)a; gs_check(p, n); GS(s)->p = p; GS(s)->len = n; }
 /* basic_string(const char*, const allocator&): NUL-terminated source (string literals) */
+#ifndef VP_GS_ARENA   /* with VP_GS_ARENA (ghost_more.h) the source is copied: it may be a local buffer that dies */
 void _ZNSt7__cxx1112basic_stringIcSt11char_traitsIcESaIcEEC2IS3_EEPKcRKS3_(u8* s, u8* p, u8* a) { (void)a; u64 n = 0; while (p[n]) n++; GS(s)->p = p; GS(s)->len = n; }
+#endif
 void _ZNSt7__cxx1112basic_stringIcSt11char_traitsIcESaIcEEC2Ev(u8* s) { GS(s)->p = (u8*)""; GS(s)->len = 0; }
 void _ZNSt7__cxx1112basic_stringIcSt11char_traitsIcESaIcEEC2EOS4_(u8* s, u8* o) { GS(s)->p = GS(o)->p; GS(s)->len = GS(o)->len; GS(o)->len = 0; }
 void _ZNSt7__cxx1112basic_stringIcSt11char_traitsIcESaIcEEC2ERKS4_(u8* s, u8* o) { GS(s)->p = GS(o)->p; GS(s)->len = GS(o)->len; }
